@@ -19,7 +19,9 @@ CONSTANTS Timers,        \* set of timer ids (strings)
           Periods,       \* [Timers -> Nat]                                  (model checking only)
           MaxNow,        \* clock bound
           EnvOps,        \* subset of {"stop","kill","drain","fail","busy","abort"}
-          VirtualClock   \* TRUE: time advances only when no timer task is runnable
+          VirtualClock,  \* TRUE: time advances only when no timer task is runnable
+          Instant,       \* TRUE: the target comes from spawn_instant and is still Unstarted at the beginning
+          UnstartedKillsInterval  \* TRUE: the code as it is (ACTIVE_STATES lacks Unstarted: deviation IntervalDiesOnUnstarted)
 
 VARIABLES now,   \* virtual ms
           tg,    \* the target actor
@@ -32,7 +34,7 @@ DrainItem == [x |-> "drain", k |-> 0]
 FailItem == [x |-> "fail", k |-> 0]
 BusyItem == [x |-> "busy", k |-> 0]
 
-InitTg == [st |-> "run",        \* run | drain | stopping | dead
+InitTg == [st |-> "run",        \* unstarted | run (Starting, Running, Upgrading) | drain | stopping | dead
            stp |-> "none", stpReason |-> "",   \* stop port: none | sent | taken
            sig |-> "none",      \* none | sent | taken
            mq |-> <<>>, cur |-> NoMsg, busy |-> FALSE,
@@ -41,12 +43,17 @@ InitTg == [st |-> "run",        \* run | drain | stopping | dead
 InitTm == [pc |-> "none",       \* none | new | sleep | done | aborted
            kind |-> "after", p |-> 0, created |-> 0, due |-> 0, k |-> 0, res |-> "none", nenq |-> 0, nh |-> 0,
            \* monitors
-           early |-> FALSE, inexact |-> FALSE, deadDeliv |-> FALSE, badOrder |-> FALSE]
+           early |-> FALSE, inexact |-> FALSE, deadDeliv |-> FALSE, badOrder |-> FALSE,
+           diedUnstarted |-> FALSE]   \* an interval task ended because its target had not started yet
 
-Init == now = 0 /\ tg = InitTg /\ tm = [t \in Timers |-> InitTm]
+Init == now = 0 /\ tg = [InitTg EXCEPT !.st = IF Instant THEN "unstarted" ELSE "run"] /\ tm = [t \in Timers |-> InitTm]
 
-Accepts == tg.st = "run"      \* send_message: status < Draining (and the receiver is still there)
-Active == tg.st = "run"       \* ACTIVE_STATES (Starting, Running, Upgrading)
+Accepts == tg.st \in {"unstarted", "run"}   \* send_message: status < Draining (and the receiver is still there)
+Active == tg.st = "run"       \* ACTIVE_STATES (Starting, Running, Upgrading): Unstarted is not among them
+\* the `while` condition of send_interval. The property-level reading keeps an interval alive until its target has *left* the
+\* running states; the code also ends it when the target has not *reached* them yet (armed on an instant-spawned actor whose
+\* start() has not been polled): named deviation IntervalDiesOnUnstarted.
+KeepTicking == Active \/ (tg.st = "unstarted" /\ ~UnstartedKillsInterval)
 Leave(r) == [r EXCEPT !.left = TRUE, !.leftAt = IF r.left THEN @ ELSE now]
 
 -----------------------------------------------------------------------------
@@ -65,6 +72,8 @@ SendItem(item) == IF Accepts THEN [tg EXCEPT !.mq = Append(@, item)] ELSE tg
 EnvSendFail == "fail" \in EnvOps /\ tg.nfail < 1 /\ tg' = [SendItem(FailItem) EXCEPT !.nfail = @ + 1] /\ UNCHANGED <<now, tm>>
 EnvSendBusy == "busy" \in EnvOps /\ tg.nbusy < 1 /\ tg' = [SendItem(BusyItem) EXCEPT !.nbusy = @ + 1] /\ UNCHANGED <<now, tm>>
 
+\* start(): Unstarted -> Starting (messages queued so far are handled after post_start)
+TgStarting == tg.st = "unstarted" /\ tg.sig # "sent" /\ tg' = [tg EXCEPT !.st = "run"] /\ UNCHANGED <<now, tm>>
 Idle == tg.st \in {"run", "drain"} /\ tg.sig # "sent" /\ ~tg.busy /\ tg.cur = NoMsg
 \* kill: handled at the next poll of the actor task, wherever it is (run_with_signal / listen_in_priority)
 TgSig ==
@@ -112,8 +121,8 @@ Create(t, kd, p) ==
 \* first poll of the timer task
 Start(t) ==
   /\ tm[t].pc = "new"
-  /\ IF tm[t].kind = "interval" /\ ~Active
-       THEN tm' = [tm EXCEPT ![t].pc = "done"]      \* the while condition fails at once
+  /\ IF tm[t].kind = "interval" /\ ~KeepTicking
+       THEN tm' = [tm EXCEPT ![t].pc = "done", ![t].diedUnstarted = tg.st = "unstarted"]      \* the while condition fails at once
        ELSE tm' = [tm EXCEPT ![t].pc = "sleep", ![t].due = now + tm[t].p]
   /\ UNCHANGED <<now, tg>>
 
@@ -132,8 +141,9 @@ Fire(t) ==
                /\ tg' = IF Accepts THEN [tg EXCEPT !.mq = Append(@, msg)] ELSE tg
           [] r.kind = "interval" ->
                \* send; on error leave; otherwise re-check the status (same poll) and wait for the next tick
-               /\ tm' = [tm EXCEPT ![t] = IF Accepts THEN [enq EXCEPT !.due = @ + r.p]
-                                                      ELSE [r EXCEPT !.pc = "done"]]
+               /\ tm' = [tm EXCEPT ![t] = IF Accepts /\ KeepTicking THEN [enq EXCEPT !.due = @ + r.p]
+                                          ELSE IF Accepts THEN [enq EXCEPT !.pc = "done", !.diedUnstarted = TRUE]
+                                          ELSE [r EXCEPT !.pc = "done"]]
                /\ tg' = IF Accepts THEN [tg EXCEPT !.mq = Append(@, msg)] ELSE tg
           [] r.kind = "exit" ->
                /\ tm' = [tm EXCEPT ![t] = [r EXCEPT !.pc = "done"]]
@@ -154,7 +164,7 @@ Advance(t2) ==
   /\ VirtualClock => \A t \in Timers : ~Runnable(t) /\ (tm[t].pc = "sleep" => tm[t].due >= t2)
   /\ now' = t2 /\ UNCHANGED <<tg, tm>>
 
-TgStep == TgSig \/ TgStop \/ TgTake \/ TgTakeDrain \/ TgHandle \/ TgBusyEnd \/ TgCleanup
+TgStep == TgStarting \/ TgSig \/ TgStop \/ TgTake \/ TgTakeDrain \/ TgHandle \/ TgBusyEnd \/ TgCleanup
 EnvStep == EnvStop \/ EnvKill \/ EnvDrain \/ EnvSendFail \/ EnvSendBusy \/ \E t \in Timers : EnvAbort(t)
 TimerStep(t) == Create(t, Kinds[t], Periods[t]) \/ Start(t) \/ Fire(t)
 Next == TgStep \/ EnvStep \/ (\E t \in Timers : TimerStep(t)) \/ (\E t2 \in (now + 1)..MaxNow : Advance(t2))
@@ -182,5 +192,8 @@ IntervalEnds == VirtualClock => \A t \in Timers :
 \* exit_after / kill_after: documented reasons
 Reasons == /\ tg.sig = "taken" => tg.exitR = "killed"
            /\ \A t \in Timers : (tm[t].pc = "done" /\ tm[t].kind = "exit" /\ tg.exitR = ExitReason(tm[t].p)) => ~tm[t].early
-TypeOk == now \in 0..MaxNow /\ tg.st \in {"run", "drain", "stopping", "dead"}
+\* an interval never ends merely because its target has not started yet (holds without the deviation; with it, the flag marks
+\* exactly the runs that need it)
+IntervalSurvivesStart == \A t \in Timers : tm[t].diedUnstarted => UnstartedKillsInterval
+TypeOk == now \in 0..MaxNow /\ tg.st \in {"unstarted", "run", "drain", "stopping", "dead"}
 =============================================================================
